@@ -308,9 +308,78 @@ func (h *Harness) refFor(t int) vivid.ActorRef {
 	case RefSub:
 		return h.sys.VerifSubscriptionRef()
 	}
+	// a token that the scenario spawns later (by exactly one spawner) already has its address: parent address + name
+	if addr, ok := h.futureAddr(t, 0); ok {
+		h.tokAt[addr] = t
+		return prc.NewProcessId(h.sys.PhysicalAddress(), addr)
+	}
 	g := h.sys.VerifGuardRef().Derivation(fmt.Sprintf("ghost%d", t))
 	h.tokAt[g.GetLogicalAddress()] = t
 	return g
+}
+
+// spawnersOf lists the tokens whose script (or RefGuard for the external actions) spawns token t.
+func (h *Harness) spawnersOf(t int) []int {
+	seen := map[int]bool{}
+	var out []int
+	add := func(p int) {
+		if !seen[p] {
+			seen[p] = true
+			out = append(out, p)
+		}
+	}
+	for _, e := range h.Scn.Exts {
+		if e.K == "spawn" && e.T == t {
+			add(RefGuard)
+		}
+	}
+	// a role is played by the token that was spawned with it
+	roleTok := map[int][]int{}
+	for _, e := range h.Scn.Exts {
+		if e.K == "spawn" {
+			roleTok[e.R] = append(roleTok[e.R], e.T)
+		}
+	}
+	for _, r := range h.Scn.Roles {
+		for _, ru := range r.Rules {
+			for _, a := range ru.Do {
+				if a.K == "spawn" {
+					roleTok[a.R] = append(roleTok[a.R], a.T)
+				}
+			}
+		}
+	}
+	for ri, r := range h.Scn.Roles {
+		for _, ru := range r.Rules {
+			for _, a := range ru.Do {
+				if a.K == "spawn" && a.T == t {
+					for _, p := range roleTok[ri] {
+						add(p)
+					}
+				}
+			}
+		}
+	}
+	return out
+}
+
+// futureAddr: the address token t will get when it is spawned, if that is determined by the scenario. h.mu is held.
+func (h *Harness) futureAddr(t, depth int) (string, bool) {
+	if a, ok := h.addrOf[t]; ok {
+		return a, true
+	}
+	if depth > 8 {
+		return "", false
+	}
+	sp := h.spawnersOf(t)
+	if len(sp) != 1 {
+		return "", false
+	}
+	pa, ok := h.futureAddr(sp[0], depth+1)
+	if !ok {
+		return "", false
+	}
+	return pa + fmt.Sprintf("/n%d", t), true
 }
 
 type scriptActor struct {
